@@ -26,6 +26,10 @@ var classMembers = map[string]string{
 	"x": "\"#<>^`\v\x00\x7f\x80\xff\xc3",
 }
 
+// characters outside ASCII that some regexp flag or Unicode table relates to an ASCII letter or digit
+// (case folding: U+017F, U+212A; digits and letters of other scripts); each of their bytes is class "x"
+var xRunes = []string{"\u017f", "\u212a", "\u0130", "\u00e9", "\u0661", "\uff21", "\u00a0", "\u2028"}
+
 func classOf(b byte) string {
 	for c, ms := range classMembers {
 		if strings.IndexByte(ms, b) >= 0 && c != "i" && c != "x" {
@@ -196,6 +200,10 @@ func synReplay(raw json.RawMessage, idx int, tr *traceWriter) {
 		var b strings.Builder
 		for _, cl := range c.Cs {
 			ms := classMembers[cl]
+			if cl == "x" && rng.Intn(3) == 0 {
+				b.WriteString(xRunes[rng.Intn(len(xRunes))])
+				continue
+			}
 			b.WriteByte(ms[rng.Intn(len(ms))])
 		}
 		// the concrete string is the replayable input
@@ -292,13 +300,17 @@ func synGen(seed int64, n int, args []string, out *json.Encoder) {
 			if len(s) > 0 {
 				j := rng.Intn(len(s))
 				pool := "/?{}:, a$~[\t\"\xff"
+				ins := string(pool[rng.Intn(len(pool))])
+				if rng.Intn(6) == 0 {
+					ins = xRunes[rng.Intn(len(xRunes))]
+				}
 				switch rng.Intn(3) {
 				case 0:
 					s = s[:j] + s[j+1:]
 				case 1:
-					s = s[:j] + string(pool[rng.Intn(len(pool))]) + s[j:]
+					s = s[:j] + ins + s[j:]
 				default:
-					s = s[:j] + string(pool[rng.Intn(len(pool))]) + s[j+1:]
+					s = s[:j] + ins + s[j+1:]
 				}
 			}
 		}
